@@ -311,6 +311,41 @@ def _run_one(job):
         shutil.rmtree(scratch, ignore_errors=True)
 
 
+def adequacy(prop):
+    """Mutation adequacy of one property's check on the CURRENT tree (used by the thorough tier): every listed mutant
+    naming `prop` is applied to a scratch copy and the check of `prop` alone must report it; every listed rewrite
+    naming `prop` must leave it silent.  Mutants whose anchor text no longer exists in the tree are skipped (the tree
+    was edited there), never counted as failures."""
+    jobs = []
+    for kind, lst in (("mutant", MUTANTS), ("equivalent", EQUIVALENTS)):
+        for name, rel, old, new, occ, props in lst:
+            if prop in props:
+                jobs.append((kind, name, rel, old, new, occ, [prop], core.REPO))
+    out = {"mutants": 0, "caught": 0, "missed": [], "skipped": [], "rewrites": 0, "silent": 0, "noisy": []}
+    if not jobs:
+        return out
+    with ProcessPoolExecutor(max_workers=min(16, len(jobs))) as ex:
+        res = list(ex.map(_run_one, jobs))
+    for r in res:
+        if "results" not in r:
+            out["skipped"].append(r["name"])
+            continue
+        code = r["results"][prop]["exit"]
+        if r["kind"] == "mutant":
+            out["mutants"] += 1
+            if code == 1:
+                out["caught"] += 1
+            else:
+                out["missed"].append(r["name"])
+        else:
+            out["rewrites"] += 1
+            if code == 0:
+                out["silent"] += 1
+            else:
+                out["noisy"].append(r["name"])
+    return out
+
+
 def main(argv):
     t0 = time.time()
     only = [a for a in argv if not a.startswith("-")]
